@@ -14,6 +14,7 @@ use std::time::Duration;
 
 use raft_log::RaftLog;
 use raft_log::api::raft_log_writer::RaftLogWriter;
+use raft_log::codeq::OffsetSize;
 use serde_json::Value;
 use serde_json::json;
 
@@ -379,6 +380,167 @@ fn run_image_probe(root: &str, tag: &str, files: &BTreeMap<String, Vec<u8>>, cfg
         ev["cont"] = c.clone();
     }
     ev
+}
+
+/// The harness's own formatting of a chunk file name: 20 decimal digits, grouped 2+3+3+3+3+3+3 with '_'
+/// (written from the documented format, independent of Config::chunk_file_name).
+pub fn fmt_chunk_name(v: u64) -> String {
+    let d = format!("{:020}", v);
+    let mut s = String::from("r-");
+    s.push_str(&d[0..2]);
+    let mut i = 2;
+    while i < 20 {
+        s.push('_');
+        s.push_str(&d[i..i + 3]);
+        i += 3;
+    }
+    s.push_str(".wal");
+    s
+}
+
+fn parse_chunk_name(n: &str) -> Option<u64> {
+    let x = n.strip_prefix("r-")?.strip_suffix(".wal")?;
+    let d: String = x.chars().filter(|c| c.is_ascii_digit()).collect();
+    d.parse::<u64>().ok()
+}
+
+struct CodecRun {
+    res: String,
+    view: Value,
+    names: Vec<String>,
+    segs: Vec<(u64, u64)>,
+    ods: u64,
+}
+
+/// open the image, observe, append three entries (rotations under chunk_max_records = 2), flush, drop, list
+fn codec_run(dir: &str, cfg: &Cfg) -> CodecRun {
+    let mut out = CodecRun { res: "ok".into(), view: json!({}), names: vec![], segs: vec![], ods: 0 };
+    let config = Arc::new(cfg.config(dir));
+    let n_before = gate::worker_count();
+    let mut rl = match catch_unwind(AssertUnwindSafe(|| RaftLog::<VT>::open(config.clone()))) {
+        Ok(Ok(rl)) => rl,
+        Ok(Err(e)) => {
+            out.res = format!("open:{}", err_class(&e));
+            return out;
+        }
+        Err(p) => {
+            out.res = format!("open:panic:{}", panic_msg(p));
+            return out;
+        }
+    };
+    if let Some(w) = gate::wait_new_worker(n_before) {
+        gate::set_free(&w);
+    }
+    let o = observe(&rl, dir);
+    out.view = json!({"st": o["st"], "es": o["es"], "esr": o["esr"]});
+    let last = rl.log_state().last().cloned();
+    let (t, i0) = match last {
+        Some((t, i)) => (t + 1, i + 1),
+        None => (1, 0),
+    };
+    let fid = 910_000_000 + n_before as u64;
+    let mut segs = vec![];
+    let mut ods = 0u64;
+    let r = catch_unwind(AssertUnwindSafe(|| -> Result<(), std::io::Error> {
+        for k in 0..3u64 {
+            let seg = rl.append([((t, i0 + k), make_payload("cdc", 5))])?;
+            segs.push((seg.offset().0, *seg.size()));
+        }
+        rl.flush(Some(Cb { fid, sent: false }))?;
+        Ok(())
+    }));
+    out.res = match r {
+        Ok(Ok(())) => match wait_cb(fid, Duration::from_secs(20)) {
+            Some(true) => "ok".to_string(),
+            Some(false) => "cont:err:cb".to_string(),
+            None => "cont:err:cb_timeout".to_string(),
+        },
+        Ok(Err(e)) => format!("cont:{}", err_class(&e)),
+        Err(p) => format!("cont:panic:{}", panic_msg(p)),
+    };
+    if out.res == "ok" {
+        if let Ok(v) = catch_unwind(AssertUnwindSafe(|| rl.on_disk_size())) {
+            ods = v;
+        }
+    }
+    let _ = catch_unwind(AssertUnwindSafe(move || drop(rl)));
+    out.segs = segs;
+    out.ods = ods;
+    let mut names: Vec<String> = shim::unobserved(|| {
+        std::fs::read_dir(dir)
+            .map(|rd| rd.flatten().map(|e| e.file_name().to_string_lossy().to_string()).filter(|n| n != "LOCK").collect())
+            .unwrap_or_default()
+    });
+    names.sort();
+    out.names = names;
+    out
+}
+
+/// C11 ("all u64 offsets for the file-name encoding"): the final image is shifted to a base offset X -- every
+/// chunk file renamed to the harness's formatting of (its offset + X), i.e. the directory of a store that has
+/// journalled X more bytes and purged them.  The real store must open it with the same state and entries,
+/// continue through rotations, and leave files whose names are the harness's formatting of X + the offsets
+/// the unshifted run produces; returned segments and on_disk_size must shift by exactly X.
+pub fn codec_probes(fslog: &[FsRec], dirkey: &str, cfg: &Cfg, opts: &Value, seed: u64, pos: u64) -> Vec<ProbeOut> {
+    let mut rng = Rng(seed.wrapping_mul(2654435761).wrapping_add(13));
+    let files = final_image(fslog, dirkey);
+    if files.is_empty() || files.keys().any(|n| parse_chunk_name(n).is_none()) {
+        return vec![];
+    }
+    let root = scratch_root();
+    let _ = shim::unobserved(|| std::fs::create_dir_all(&root));
+    let mut c2 = cfg.clone();
+    c2.mr = Some(2);
+    c2.tr = Some(true);
+    let base_dir = format!("{}/cdc0", root);
+    image::materialize(&base_dir, &files);
+    let base = codec_run(&base_dir, &c2);
+    let _ = shim::unobserved(|| std::fs::remove_dir_all(&base_dir));
+    let mut out = vec![];
+    if base.res != "ok" {
+        return out;
+    }
+    let base_offs: Vec<u64> = base.names.iter().filter_map(|n| parse_chunk_name(n)).collect();
+    let mut xs: Vec<u64> = vec![
+        1, 999, 1_000, 999_999, 1_000_000, 4_294_967_295, 4_294_967_296, 1_000_000_000_000 - 1, 9_007_199_254_740_993,
+        999_999_999_999_999_999, 1_000_000_000_000_000_000, 9_223_372_036_854_775_807, 9_223_372_036_854_775_808,
+        9_999_999_999_999_999_000, 10_000_000_000_000_000_000, 18_446_744_073_708_000_000,
+    ];
+    // one random value per decimal length
+    for k in 1..20u32 {
+        let lo = 10u64.pow(k - 1);
+        let hi = if k == 19 { 9_999_999_999_999_999_999 } else { 10u64.pow(k) - 1 };
+        xs.push(lo + rng.below(hi - lo + 1));
+    }
+    let n_x = opts["n"].as_u64().unwrap_or(8) as usize;
+    if xs.len() > n_x && !opts["all"].as_bool().unwrap_or(false) {
+        let mut pick = vec![];
+        for _ in 0..n_x {
+            pick.push(xs[rng.below(xs.len() as u64) as usize]);
+        }
+        xs = pick;
+    }
+    xs.sort();
+    xs.dedup();
+    for (k, x) in xs.iter().enumerate() {
+        let mut f2: BTreeMap<String, Vec<u8>> = BTreeMap::new();
+        for (n, c) in files.iter() {
+            f2.insert(fmt_chunk_name(parse_chunk_name(n).unwrap() + x), c.clone());
+        }
+        let dir = format!("{}/cdc{}", root, k + 1);
+        image::materialize(&dir, &f2);
+        let r = codec_run(&dir, &c2);
+        let _ = shim::unobserved(|| std::fs::remove_dir_all(&dir));
+        let want: Vec<String> = base_offs.iter().map(|o| fmt_chunk_name(o + x)).collect();
+        let segs_ok = r.segs.len() == base.segs.len()
+            && r.segs.iter().zip(base.segs.iter()).all(|(a, b)| a.0 == b.0.wrapping_add(*x) && a.1 == b.1);
+        let ev = json!({"e": "probe", "kind": "codec", "x": x.to_string(), "res": r.res, "same_view": r.view == base.view,
+                        "got": r.names, "want": want, "segs_ok": segs_ok || r.res != "ok",
+                        "ods_ok": r.ods == base.ods || r.res != "ok"});
+        out.push(ProbeOut { pos, ev });
+    }
+    let _ = shim::unobserved(|| std::fs::remove_dir_all(&root));
+    out
 }
 
 /// C10: the newest chunk cut at byte positions / zero-filled from record boundaries.
